@@ -24,6 +24,16 @@ def same(a, b):
         return z3.BoolVal(True)
     if a is None or b is None:
         return z3.BoolVal(False)
+    from vt.tensor import Tensor, dim_eq
+
+    ta, tb = isinstance(a, Tensor), isinstance(b, Tensor)
+    if ta != tb:
+        return z3.BoolVal(False)  # an array is not a scalar
+    if ta:
+        if a.ndim != b.ndim or not all(dim_eq(x, y) for x, y in zip(a.shape, b.shape)):
+            return z3.BoolVal(False)
+        idx = tuple(z3.Int("same!i%d" % k) for k in range(a.ndim))
+        return a.fn(idx) == b.fn(idx)
     ea, eb = _lift(a), _lift(b)
     if ea.sort() != eb.sort():
         if z3.is_arith_sort(ea.sort()) and z3.is_arith_sort(eb.sort()):
